@@ -41,7 +41,7 @@ pub struct CliScenario {
     /// number of -v flags (0: info, 1: debug, 2+: trace): debug!/trace! statements then run too
     pub verbosity: u64,
     /// "none" | "enoent" | "enotdir" | "eisdir-json" | "eisdir-svg" | "enospc-json" | "enospc-svg"
-    /// | "start-config-missing" | "stale-output"
+    /// | "start-config-missing" | "start-config-other-group" | "stale-output"
     pub fault: String,
 }
 
@@ -223,6 +223,32 @@ pub fn run_cli(sc: &CliScenario) -> Result<CliResult, String> {
         "enospc-json" => mk(std::os::unix::fs::symlink("/dev/full", dir.join("out.json")))?,
         "enospc-svg" => mk(std::os::unix::fs::symlink("/dev/full", dir.join("out.svg")))?,
         "start-config-missing" => start_config = Some(dir.join("no_such_config.json").to_string_lossy().to_string()),
+        // an existing, valid start configuration that was produced for ANOTHER wallpaper group (same
+        // shape and potential): whatever the tool does with --start-config, what it writes must be
+        // what the positional arguments ask for
+        "start-config-other-group" => {
+            let mut pre = sc.clone();
+            pre.fault = "none".into();
+            pre.group = if sc.group == "p2" { "p1".to_string() } else { "p2".to_string() };
+            pre.replications = Some(1);
+            pre.steps = Some(20);
+            pre.verbosity = 0;
+            let pre_out = dir.join("start");
+            let argv = pre.argv(&pre_out.to_string_lossy(), None);
+            let st = Command::new(&bin)
+                .args(&argv)
+                .env_clear()
+                .env("RAYON_NUM_THREADS", "1")
+                .current_dir(&dir)
+                .stdin(Stdio::null())
+                .stdout(Stdio::null())
+                .stderr(Stdio::null())
+                .status()
+                .map_err(|e| format!("spawn (start config): {}", e))?;
+            if st.success() {
+                start_config = Some(pre_out.with_extension("json").to_string_lossy().to_string());
+            }
+        }
         // F-stale: both output files already exist, longer than anything the run will write
         "stale-output" => {
             let junk = vec![b'#'; 20_000];
@@ -251,7 +277,8 @@ pub fn run_cli(sc: &CliScenario) -> Result<CliResult, String> {
     let svg_is_regular = is_reg(&sp);
     let json = if json_is_regular { std::fs::read(&jp).ok() } else { None };
     let svg = if svg_is_regular { std::fs::read(&sp).ok() } else { None };
-    let stderr = String::from_utf8_lossy(&output.stderr).to_string();
+    // the scratch directory's name is unique per execution: it is not part of what is compared
+    let stderr = String::from_utf8_lossy(&output.stderr).replace(&*dir.to_string_lossy(), "<dir>");
     let final_score_text = stderr
         .lines()
         .filter_map(|l| l.find("Final score: ").map(|p| l[p + "Final score: ".len()..].trim().to_string()))
